@@ -425,7 +425,8 @@ def runLoop (env : Env) : Nat → Option Bytes → Bytes → VM Bytes
     let waitChange ← resetFlagM Facts.waitFlag
     if waitChange then do
       let _ ← resetFlagM Facts.inmatchFlag
-      modify fun s => { s with pg := s.pg.reset }
+      -- pg.Reset(); pg.WithError(nil) (fix: commit 0861976); mn.Reset()
+      modify fun s => { s with pg := { s.pg.reset with err := none }, errOpaque := false }
     let _ ← setFlagM Facts.dirtyFlag
     match opSplit b with
     | .err k => fail k (ascii "decode")
